@@ -467,7 +467,18 @@ func vJudgeDM(s *vDMState, quiescent bool) []vDMViolation {
 		if !run.Done {
 			bad("closed-lease-is-torn-down", vTriggerOf(run.Seq), "teardown() was accepted but the manager is idle and still running; TeardownLease calls: "+fmt.Sprint(len(teardowns)))
 		}
-		if len(deploys) > 0 && len(teardowns) == 0 {
+		// ("if a lease closes, teardown is invoked": also when this manager has
+		// not deployed anything itself - after a provider restart a manager is
+		// created for a workload that is already running in the cluster)
+		// (a manager whose hostname reservation was refused never had anything
+		// in the cluster and ends by itself: no teardown is demanded of it)
+		refused := false
+		for _, e := range run.Seq {
+			if e == evHm {
+				refused = true
+			}
+		}
+		if len(teardowns) == 0 && (len(deploys) > 0 || !refused) {
 			bad("closed-lease-is-torn-down", vTriggerOf(run.Seq), fmt.Sprintf("teardown() was accepted, %d deploy(s) were started, TeardownLease was never invoked", len(deploys)))
 		}
 		if len(deploys) > 0 && len(teardowns) > 0 {
